@@ -19,8 +19,11 @@ Definition c_trace := trace_hist mk_scanner mk_callback mk_search at_end ntfuel 
 Definition c_run_hist := run_hist mk_scanner mk_callback mk_search at_end ntfuel init_ls iter ssearch c_sc_want c_sc_end.
 
 (* an instance with one BasicLexer (lexer='basic') *)
+(* copy(lexer_conf) with ignore = () *)
+Definition no_ignore (lc : lconf) : lconf := mkLconf (terminals lc) [] (user_cbs lc).
+
 Definition basic_conf (lc : lconf) (pl : option icfg) (shared scan : bool) : iconf lconf :=
-  mkIconf (fun _ => lc) (fun _ => 0) None pl shared lc scan.
+  mkIconf (fun _ => lc) (fun _ => 0) None pl shared lc (no_ignore lc) scan.
 
 Definition upto (k : option nat) : list tok -> bool :=
   fun acc => match k with None => true | Some n => Nat.ltb (List.length acc) n end.
@@ -30,6 +33,7 @@ Definition upto_m (k : option nat) : nat -> bool :=
 Inductive opd :=
 | DParse (text : string) (k : option nat)
 | DLex (text : string) (k : option nat)
+| DLexAll (text : string) (k : option nat)
 | DInter (text : string) (k : option nat)
 | DScan (text : string) (k : option nat)
 | DOther.
@@ -38,6 +42,7 @@ Definition op_of (d : opd) : cop :=
   match d with
   | DParse t k => OParse t (upto k)
   | DLex t k => OLex t (upto k)
+  | DLexAll t k => OLexAll t (upto k)
   | DInter t k => OInteractive t (upto k)
   | DScan t k => OScan t (upto_m k)
   | DOther => OOther _
